@@ -299,9 +299,10 @@ Definition g_fanout (c : gcase) : bool :=
         existsb (existsb (fun tg => match tg with TW _ => true | _ => false end)) (pm c)).
 """
 
-# VERIF_C17_FIXES=idx evaluates the mechanism model with the proposed repair of the ignored edge idx and drops its guard
-FIXES = [x for x in os.environ.get("VERIF_C17_FIXES", "").split(",") if x]
-HEADER = HEADER.replace("@IDX@", "true" if "idx" in FIXES else "fix_idx")
+# Repair D155 (adapt_circuit passes the parallel-edge index through) has landed: the mechanism model runs with Grid.fix_idx = true
+# and idx_guard is not a guard any more.  VERIF_C17_FIXES=none evaluates the model of the code before it (debugging aid only).
+FIXES = [x for x in os.environ.get("VERIF_C17_FIXES", "idx").split(",") if x and x != "none"]
+HEADER = HEADER.replace("@IDX@", "fix_idx" if "idx" in FIXES else "false")
 
 def cstrs(l):
     return clist([cstr(x) for x in l])
